@@ -655,6 +655,25 @@ fn shapes_g<F: Float>(int: &[u8], frac: &[u8], exp: i32, shape: u32, salt: u64) 
             let singles: Vec<[u8; 1]> = frac.iter().map(|&c| [c]).collect();
             ml::parse_float::<F, _, _>(ci.iter().flat_map(|c| c.iter()), singles.iter().map(|a| &a[0]), exp).to_bits()
         }
+        11 => {
+            // a wide iterator type: a chain of six slice iterators (well over 64 bytes), cut at generated points
+            let cut = |s: &[u8], k: u64| -> [usize; 5] {
+                let n = s.len() + 1;
+                let mut c = [(k as usize) % n, (k as usize >> 5) % n, (k as usize >> 10) % n, (k as usize >> 15) % n, (k as usize >> 20) % n];
+                c.sort_unstable();
+                c
+            };
+            let (a, b) = (cut(int, salt), cut(frac, salt >> 25));
+            let i = int[..a[0]].iter().chain(int[a[0]..a[1]].iter()).chain(int[a[1]..a[2]].iter()).chain(int[a[2]..a[3]].iter()).chain(int[a[3]..a[4]].iter()).chain(int[a[4]..].iter());
+            let f = frac[..b[0]].iter().chain(frac[b[0]..b[1]].iter()).chain(frac[b[1]..b[2]].iter()).chain(frac[b[2]..b[3]].iter()).chain(frac[b[3]..b[4]].iter()).chain(frac[b[4]..].iter());
+            ml::parse_float::<F, _, _>(i, f, exp).to_bits()
+        }
+        12 => {
+            // a fat custom iterator (256 bytes of state that cloning has to copy)
+            let i = FatIter { inner: int.iter(), ballast: [salt; 30] };
+            let f = FatIter { inner: frac.iter(), ballast: [!salt; 30] };
+            ml::parse_float::<F, _, _>(i, f, exp).to_bits()
+        }
         _ => {
             // every item is a reference into one shared table: equal digits have equal addresses (a
             // run-length-decoded or table-mapped front-end yields exactly this); for valid input only
@@ -666,6 +685,23 @@ fn shapes_g<F: Float>(int: &[u8], frac: &[u8], exp: i32, shape: u32, salt: u64) 
                 ml::parse_float::<F, _, _>(int.iter(), frac.iter(), exp).to_bits()
             }
         }
+    }
+}
+
+#[derive(Clone)]
+struct FatIter<'a> {
+    inner: core::slice::Iter<'a, u8>,
+    ballast: [u64; 30],
+}
+
+impl<'a> Iterator for FatIter<'a> {
+    type Item = &'a u8;
+    fn next(&mut self) -> Option<&'a u8> {
+        core::hint::black_box(&self.ballast);
+        self.inner.next()
+    }
+    fn size_hint(&self) -> (usize, Option<usize>) {
+        self.inner.size_hint()
     }
 }
 
